@@ -21,6 +21,7 @@ EVID_DIR = os.path.join(ROOT, "evidence")
 REPLAY_DIR = os.environ.get("VERIF_REPLAY_DIR") or os.path.join(ROOT, "replays")
 KNOWN = os.path.join(ROOT, "known_findings.json")
 MAX_EVENTS_PER_FILE = 25000
+SINGLE_WORKER_MODULES = {"MC_C15.tla"}
 
 
 class CaseTimeout(BaseException):
@@ -139,7 +140,11 @@ def check(prop, spec, tier, seed, replay=None):
                     continue
                 cfg = inst["cfg_quick"] if (tier == "quick" and "cfg_quick" in inst) else inst["cfg"]
                 want_cov = tier == "thorough" and not inst.get("expect_violation") and inst.get("coverage", False)
-                r = tlc.model_check(inst["module"], cfg, scratch, timeout=inst.get("timeout", 3000),
+                # (instances of a module whose VIEW hides its depth counter are explored by ONE worker: breadth-first order then
+                #  reaches every view-state first at its minimal depth, so the depth bound cuts nothing that is reachable within it;
+                #  with several workers the order - and with it the explored set - varies from run to run)
+                workers = 1 if inst["module"] in SINGLE_WORKER_MODULES else 16
+                r = tlc.model_check(inst["module"], cfg, scratch, timeout=inst.get("timeout", 3000), workers=workers,
                                     simulate=inst.get("simulate"), coverage=want_cov)
                 if want_cov:      # vacuity control: every action of the instance must have been taken
                     dead = sorted(a for a, n in r["coverage"].items() if n == 0 and a not in inst.get("may_be_idle", []))
